@@ -343,6 +343,20 @@ def call_sites(res: Res):
     want = {f"{s_}+{l_}:{k}": f"implies(start == {s_} and length == {l_}, {e})" for s_, l_ in K.SIGNATURES for k, e in CONTRACTS[f"{K.MOD}:intListToNum#{s_}+{l_}"].ensures.items()}
     if dict(bare.ensures) != want or bare.requires != [" or ".join(f"(start == {s_} and length == {l_})" for s_, l_ in K.SIGNATURES)] or bare.props:
         problems.append("the bare intListToNum contract is not the conjunction of the proved per-signature variants")
+    # `_isNonBMP#named` (used by setupTable_name) is the proved contract `_isNonBMP` with the definition of the name `non_bmp`
+    # folded: the name's python body must be literally `return non_bmp_from(s, 0)` and the two clauses must be the folded /
+    # unfolded forms of each other
+    import inspect
+
+    from pyvc.api import SPECFNS
+
+    nb = SPECFNS["non_bmp"]
+    body = [n for n in ast.parse(inspect.getsource(nb.fn).split("\n", 1)[1]).body[0].body if not (isinstance(n, ast.Expr) and isinstance(n.value, ast.Constant))]
+    proved, named = CONTRACTS["ufo2ft.outlineCompiler:_isNonBMP"], CONTRACTS["ufo2ft.outlineCompiler:_isNonBMP#named"]
+    if not (len(body) == 1 and isinstance(body[0], ast.Return) and ast.unparse(body[0].value) == "non_bmp_from(s, 0)" and nb.opaque
+            and dict(proved.ensures) == {"iff": "result == non_bmp_from(s, 0)"} and PID in proved.props and not proved.requires
+            and dict(named.ensures) == {"iff": "result == non_bmp(s)"} and not named.requires and dict(named.params) == dict(proved.params)):
+        problems.append("_isNonBMP#named is not the definitional folding of the proved contract _isNonBMP")
     res.oblig(not problems)
     for p in problems:
         res.r["checker_errors"].append("C16 call-site coverage: " + p)
@@ -498,7 +512,7 @@ def close(a, b):
     return a == b
 
 
-NAMES = ["New", "Fam ily", "Ünï", "A[b]", "x/y", " lead", "Sans  Serif", "Ｆｕｌｌ", "ﬁne", "Ωmega"]
+NAMES = ["New", "Fam ily", "Ünï", "A[b]", "x/y", " lead", "Sans  Serif", "Ｆｕｌｌ", "ﬁne", "Ωmega", "\U0001d518ni"]
 STYLE_NAMES = ["Regular", "Bold", "italic", " Bold Italic ", "Light", "Condensed Bold", "", "Ünï"]
 
 
